@@ -181,6 +181,8 @@ Theorem C18_array_identities : forall (A : Type) (l : list A) (d : A), l <> [] -
 Proof. exact array_identities_all. Qed.
 Print Assumptions C18_array_identities.
 Example C18_array_nonvacuous : arr_back [10; 20; 30] = Some 30 /\ arr_concat [[1]; [2; 3]; []; [4]] = [1; 2; 3; 4] /\
+  (* empty pieces first, in the middle (twice) and last: [] is the unit of the concatenation *)
+  arr_concat [[]; [1; 2]; []; []; [3]; []] = [1; 2; 3] /\ arr_concat [[]; []] = ([] : list nat) /\
   (* an element == that is not reflexive (2 plays NaN): the array is not equal to itself *)
   arr_eqb (fun a b => negb (Nat.eqb a 2) && Nat.eqb a b) [1; 2] [1; 2] = false /\
   (* an element == that is not bitwise (ignores the low bit, like -0.0 == +0.0) *)
